@@ -97,7 +97,7 @@ pub fn generate(input: TokenStream) -> TokenStream {
             &pattern_source,
             skip.literal.token().to_string(),
             skip.literal.unicode(),
-            false,
+            skip.ignore_flags.ignore_case,
         ) {
             Ok(pattern) => pattern,
             Err(err) => {
